@@ -32,8 +32,13 @@ ASSUMPTIONS = [
     "surface points of geom1/geom2 (mjContact.pos: 'midpoint between geoms')",
     "exactly symmetric configurations (coincident centres, point on a medial axis, parallel capsules) have no unique normal: any "
     "normal that realises the true distance is accepted; tolerances are 1e-9*(sum of extents) for closed-form colliders",
-    "box-box: the contact collider (mjc_BoxBox) is exact only up to its documented multi-contact construction; contact distance and "
-    "mj_geomDistance (native GJK/EPA for box-box) are compared with rtol 1e-3*size / 10*ccd_tolerance as in the design note",
+    "box-box: the contact collider (mjc_BoxBox) is exact only up to its multi-contact construction; contact distance and "
+    "mj_geomDistance (native GJK/EPA for box-box) are compared with rtol 1e-3*size / 10*ccd_tolerance as in the design note, plus 5% of "
+    "the depth when penetrating (the collider deliberately prefers a face axis whose depth is within 5% of the best edge-edge axis)",
+    "conditioning terms scaled to the operands: plane-cylinder r*2e-15/sin(angle between axis and normal) (the rim point is obtained by "
+    "normalising axis*<n,axis>-n), capsule-capsule 4e-16*length/sin(angle between the axes) (2x2 system of the nearest points)",
+    "sphere centre exactly on the axis segment of a capsule / on the axis of a cylinder (measure zero): the radial direction is "
+    "undefined and the colliders fall back to cross(z1,z2) or (1,0,0); only unit length is required there (counted)",
     "pairs without a closed form here (ellipsoid/cylinder against non-plane, capsule-cylinder) get the universal contact invariants and "
     "the mj_geomDistance symmetry/agreement checks only; their distances are C15's subject",
     "libccd and qhull are absent in this build: mjDSBL_NATIVECCD is never set; mesh geoms are not used by this check",
@@ -118,7 +123,8 @@ def build_xml(c):
             gx = geom_xml("g%d" % k, gk["type"], gk["size"], gk["margin"], gk["gap"], gk.get("off_pos"), gk.get("off_quat"))
         kind = "free" if k == 1 else var
         if kind in ("free", "pair"):
-            bodies.append('<body name="b%d"><freejoint/>%s</body>' % (k, gx))
+            # explicit inertia: tiny geoms would otherwise be rejected for mass/inertia below mjMINVAL (irrelevant to collision)
+            bodies.append('<body name="b%d"><freejoint/><inertial pos="0 0 0" mass="1" diaginertia="1 1 1"/>%s</body>' % (k, gx))
         elif kind == "mocap":
             bodies.append('<body name="b%d" mocap="true">%s</body>' % (k, gx))
         else:   # static: fixed pose from the case
@@ -142,6 +148,9 @@ class Scene:
         if any(g["type"] == "mesh" for g in c["geoms"]):
             m["geom_contype"][:] = 1
             m["geom_conaffinity"][:] = 1
+            for f in ("body_contype", "body_conaffinity"):       # aggregated per body at compile time
+                if f in m:
+                    m[f][1:] = 1
         self.d = m.make_data()
         self.margin = (c["pair_margin"] if c["variant"] == "pair" else c["geoms"][0]["margin"] + c["geoms"][1]["margin"])
         self.gap = (c["pair_gap"] if c["variant"] == "pair" else c["geoms"][0]["gap"] + c["geoms"][1]["gap"])
@@ -243,6 +252,8 @@ def make_case(rng, pair, idx, nposes, scale_decades=3.0):
          "pair_margin": float(rng.choice([0.0, rng.uniform(0, 0.1), rng.uniform(0, 0.1) * scale])), "pair_gap": float(rng.choice([0.0, rng.uniform(0, 0.02) * scale])),
          "pair_swap": bool(rng.random() < 0.5), "seed": int(rng.integers(0, 2 ** 31)), "nposes": nposes, "idx": idx,
          "pair": "%s-%s" % pair}
+    if pair in OTHER_PAIRS or pair == ("box", "box"):
+        c["ccd_iterations"] = 500          # the iteration limit is C15's subject
     return c
 
 
@@ -317,7 +328,7 @@ def plan_pose(rng, S, pclass, oclass):
         if not u.any():
             u = R0[:, 2]
     u /= np.linalg.norm(u)
-    Ac = cx.Shape(A0.kind, A0.size, np.zeros(3), R0)
+    Ac = cx.Shape(A0.kind, A0.size, np.zeros(3), R0, A0.verts)
     w0 = Ac.h(u) + B0.h(-u)
     P1 = P0 + u * (w0 + delta)
     if oclass in ("parallel", "edge", "aligned") and rng.random() < 0.5:
@@ -396,30 +407,49 @@ def canonical(S, obs):
 
 def capsule_parallel_mechanism(A, B, mg, obs, kA):
     """classify poses that exercise the parallel-axes branch of the capsule-capsule collider in the way described in
-    findings/C13-capsule-capsule-parallel.md (classification only; the verdict logic is unchanged)"""
+    findings/C13-capsule-capsule-parallel-branch.md (classification only; the verdict logic is unchanged)"""
     a1, a2 = A.axis * A.size[1], B.axis * B.size[1]
     det = float(a1 @ a1) * float(a2 @ a2) - float(a1 @ a2) ** 2
-    if abs(det) >= 1e-15:            # mjMINVAL: the branch condition in mjraw_CapsuleCapsule
+    if abs(det) >= 1e-15:            # mjMINVAL: the (absolute) branch condition in mjraw_CapsuleCapsule
         return ""
-    sin2 = det / max(float(a1 @ a1) * float(a2 @ a2), 1e-300)
-    if sin2 > 1e-12:
-        return "capsule-capsule-parallel-branch-for-nonparallel-small-capsules:"
-    # exactly parallel: the defect needs both end points of one capsule to project outside the other segment (clipped partner points)
-    def both_clipped(X, Y):
+    st = float(np.linalg.norm(np.cross(A.axis, B.axis)))
+    if st > 1e-9:
+        return "capsule-capsule-parallel-branch:nonparallel-axes:"
+    # parallel: the defect needs the projected span of one segment to lie strictly inside the other's (both partner points clipped)
+    def nested(X, Y):
         c = float(Y.size[1])
         ts = [float((X.pos + sg * X.axis * X.size[1] - Y.pos) @ Y.axis) for sg in (1, -1)]
-        return all(abs(t) > c * (1 + 1e-12) for t in ts)
-    if both_clipped(A, B) or both_clipped(B, A):
-        return "capsule-capsule-parallel-clipped-endpoints:"
+        return min(ts) < -c * (1 + 1e-12) and max(ts) > c * (1 + 1e-12)
+    if nested(A, B) or nested(B, A):
+        return "capsule-capsule-parallel-branch:nested-spans:"
     return ""
 
 
-def check_pose(P, S, obs, distmax, tag, witness, tol_contact=None, tol_gd=None):
-    """all C13 checks for one observed pose; returns regime string"""
+def capsule_box_mechanism(A, B):
+    """the capsule's axis segment meets the box (both end points inside, or piercing it): the legacy collider only considers end
+    points and box edges as nearest features (findings/C13-capsule-box-segment-meets-box.md)"""
+    D, _ = primdist._seg_box_dist(B.local(A.pos), (A.axis * A.size[1]) @ B.R, B.size[:3])
+    return "capsule-box-segment-meets-box:" if D <= 1e-12 * B.extent() else ""
+
+
+def ccd_coincident_centres(A, B, tol):
+    """GJK starts from the difference of the geom centres and stops at once when it is shorter than its tolerance
+    (findings/C15-gjk-coincident-centres.md)"""
+    return float(np.linalg.norm(A.pos - B.pos)) <= tol
+
+
+def check_pose(P, S, obs, distmax, tag, witness, tol_contact=None, tol_gd=None, sink=None):
+    """all C13 checks for one observed pose; returns regime string; violations go to `sink` (list) when given"""
     c = S.c
     mechbox = [""]
-    viol = lambda sig, **kw: P.violation((mechbox[0] if not sig.startswith("plane-capsule-axis") else "") + sig,
-                                         dict(witness, **{k: (v.tolist() if isinstance(v, np.ndarray) else v) for k, v in kw.items()}))
+
+    def viol(sig, **kw):
+        sig = (mechbox[0] if not sig.startswith("plane-capsule-axis") else "") + sig
+        det = dict(witness, **{k: (v.tolist() if isinstance(v, np.ndarray) else v) for k, v in kw.items()})
+        if sink is not None:
+            sink.append((sig, det))
+        else:
+            P.violation(sig, det)
     kA, kB = canonical(S, obs)
     A, B = S.shape(kA), S.shape(kB)
     ext = (A.extent() if A.kind != cx.PLANE else 0.0) + B.extent()
@@ -431,6 +461,8 @@ def check_pose(P, S, obs, distmax, tag, witness, tol_contact=None, tol_gd=None):
     isbox = (A.kind, B.kind) == (cx.BOX, cx.BOX)
     ccd_tol = float(c.get("ccd_tolerance", 1e-6))
     tolc = tol_contact if tol_contact is not None else (1e-9 * scale if not isbox else max(1e-3 * ext, 10 * ccd_tol))
+    if isbox and ref["dist"] < 0:
+        tolc = max(tolc, 0.05 * abs(ref["dist"]))       # mjc_BoxBox prefers a face axis within 5% of the best edge-edge axis
     tolg = tol_gd if tol_gd is not None else (1e-9 * scale if not isbox else max(1e-6 * ext, 10 * ccd_tol))
     mech = ""
     if (A.kind, B.kind) == (cx.PLANE, cx.CYLINDER):
@@ -438,13 +470,34 @@ def check_pose(P, S, obs, distmax, tag, witness, tol_contact=None, tol_gd=None):
         # parallel disc and plane (conditioning of the formula, scaled to the operands)
         st = float(np.linalg.norm(np.cross(A.R[:, 2], B.axis)))
         if st > 0:
-            tolc += B.size[0] * 4e-16 / st
-            tolg += B.size[0] * 4e-16 / st
+            tolc += B.size[0] * 2e-15 / st
+            tolg += B.size[0] * 2e-15 / st
+    tolsym = 1e-12 * scale
     if (A.kind, B.kind) == (cx.CAPSULE, cx.CAPSULE):
+        # nearly parallel axes: the 2x2 system for the nearest points has condition ~ 1/sin^2(angle); the distance error is
+        # eps*length/sin(angle) (conditioning of the textbook formula, scaled to the operands)
+        st = float(np.linalg.norm(np.cross(A.axis, B.axis)))
+        cterm = 4e-16 * (A.size[1] + B.size[1]) / max(st, 1e-9)
+        tolc += cterm
+        tolg += cterm
+        tolsym += cterm
         mech = capsule_parallel_mechanism(A, B, mg, obs, kA)
         if mech:
             P.count("poses_" + mech.rstrip(":"))
         mechbox[0] = mech
+    if (A.kind, B.kind) == (cx.CAPSULE, cx.BOX):
+        mechbox[0] = capsule_box_mechanism(A, B)
+        if mechbox[0]:
+            P.count("poses_" + mechbox[0].rstrip(":"))
+    if isbox and ref["dist"] > 0 and ref.get("sat_sep", ref["dist"]) < ref["dist"] - 1e-9 * scale:
+        # nearest features are vertex-vertex / vertex-edge: the largest separating-axis gap is smaller than the Euclidean distance
+        mechbox[0] = "box-box-separated-vertex-features:"
+        P.count("poses_box-box-separated-vertex-features")
+    uses_ccd_gd = isbox or ref is None
+    gd_mech = ""
+    if uses_ccd_gd and A.kind != cx.PLANE and ccd_coincident_centres(A, B, max(ccd_tol, 1e-15)):
+        mechbox[0] = "ccd-coincident-centres:"
+        P.count("poses_ccd-coincident-centres")
     con = obs["con"]
     regime = "none"
     gdA, gdB = (obs["gd01"], obs["gd10"]) if kA == 0 else (obs["gd10"], obs["gd01"])
@@ -456,9 +509,9 @@ def check_pose(P, S, obs, distmax, tag, witness, tol_contact=None, tol_gd=None):
         viol("geomDistance-not-finite:" + pairname, gd=[gdA, gdB])
         return regime
     P.note_max("geomdist_asym_rel", abs(gdA - gdB) / max(scale, 1e-300))
-    if abs(gdA - gdB) > (1e-12 * scale if (ref is not None and not isbox) else 2 * ccd_tol + 1e-9 * scale):
+    if abs(gdA - gdB) > (tolsym if (ref is not None and not isbox) else 10 * ccd_tol + 1e-6 * ext):
         viol("geomDistance-not-symmetric:" + pairname, gd_ab=gdA, gd_ba=gdB, distmax=distmax)
-    elif gdA < distmax and gdB < distmax:
+    elif gdA < distmax and gdB < distmax and ref is not None and ref["n"] is not None and ref["ncond"] > 1e-6 * ext and not mechbox[0]:
         e = max(float(np.abs(ftA[:3] - ftB[3:]).max()), float(np.abs(ftA[3:] - ftB[:3]).max()))
         if e > (1e-9 * scale if (ref is not None and not isbox) else None or 1e30):
             viol("geomDistance-fromto-not-reversed-on-swap:" + pairname, ft_ab=ftA, ft_ba=ftB)
@@ -473,7 +526,7 @@ def check_pose(P, S, obs, distmax, tag, witness, tol_contact=None, tol_gd=None):
             e = abs(dmin - gdA)
             P.note_max("contact_vs_geomdist_rel:" + ("boxbox" if isbox else "other"), e / max(ext, 1e-300))
             # box-box: different algorithms (mjc_BoxBox vs GJK/EPA)
-            lim = tolc if isbox else (1e-12 * scale if ref is not None else 10 * ccd_tol + 1e-6 * ext)
+            lim = tolc if isbox else (tolsym if ref is not None else 10 * ccd_tol + 1e-6 * ext)
             if e > lim:
                 viol("geomDistance-differs-from-contact-dist:" + pairname, contact=dmin, gd=gdA, distmax=distmax, tol=lim)
             else:
@@ -508,11 +561,19 @@ def check_pose(P, S, obs, distmax, tag, witness, tol_contact=None, tol_gd=None):
     n = k0["frame"][0]
     sepn = cx.sep(A, B, n) if A.kind != cx.PLANE else (-B.h(-n) - float(n @ A.pos) if float(n @ A.R[:, 2]) > 1 - 1e-9 else -np.inf)
     P.note_max("normal_realises_dist_defect_rel", (td - sepn) / max(ext, 1e-300))
-    core_coincident = ref["n"] is None and A.kind in (cx.SPHERE, cx.CAPSULE) and B.kind in (cx.SPHERE, cx.CAPSULE) and ref["ncond"] <= 1e-12 * ext
+    core_coincident = (A.kind in (cx.SPHERE, cx.CAPSULE) and B.kind in (cx.SPHERE, cx.CAPSULE, cx.CYLINDER) and ref["ncond"] <= 1e-12 * ext
+                       and ref.get("degenerate_axis", True))
     if core_coincident:
         P.count("skipped_normal_check_coincident_cores")
-    elif sepn < td - max(tolc, 1e-9 * scale):
-        flipped = (cx.sep(A, B, -n) if A.kind != cx.PLANE else (0.0 if float(n @ A.R[:, 2]) < -1 + 1e-9 else -np.inf)) >= td - max(tolc, 1e-9 * scale)
+    # the normal of sphere/capsule pairs is (p2-p1)/D: direction error ~ (rounding of the nearest points)/D, first order in the
+    # separation along it (conditioning, scaled to the operands)
+    toln = max(tolc, 1e-9 * scale)
+    if A.kind in (cx.SPHERE, cx.CAPSULE) and B.kind in (cx.SPHERE, cx.CAPSULE) and ref["ncond"] > 0:
+        toln += ext * (4e-16 * scale + 10 * (tolc - 1e-9 * scale)) / ref["ncond"]
+    if core_coincident:
+        pass
+    elif sepn < td - toln:
+        flipped = (cx.sep(A, B, -n) if A.kind != cx.PLANE else (0.0 if float(n @ A.R[:, 2]) < -1 + 1e-9 else -np.inf)) >= td - toln
         viol("contact-normal-%s:%s" % ("points-from-geom2-to-geom1" if flipped else "does-not-realise-distance", pairname), normal=n, sep_along_normal=sepn, true=td,
              ref_normal=ref["n"])
     elif ref["n"] is not None and ref["ncond"] > 1e-5 * ext and not isbox:
@@ -529,7 +590,7 @@ def check_pose(P, S, obs, distmax, tag, witness, tol_contact=None, tol_gd=None):
             si = cx.sep(A, B, ni)
         if si is not None and k["dist"] < si - max(tolc, 1e-9 * scale):
             viol("contact-deeper-than-geometry-along-its-normal:" + pairname, contact=i, dist=k["dist"], sep_along_normal=si)
-        if i == i0:
+        if i == i0 and not core_coincident:
             ok, diag = between_surfaces(A, B, k, max(tolc, 1e-9 * scale))
             P.count("positions_checked")
             if not ok:
@@ -575,7 +636,23 @@ def run_case(c, P, poses=None):
             continue
         witness["qpos"] = np.array(S.d["qpos"]).tolist()
         witness["mocap"] = [np.array(S.d["mocap_pos"]).tolist(), np.array(S.d["mocap_quat"]).tolist()]
-        regime = check_pose(P, S, obs, distmax, c["pair"], witness)
+        sink = []
+        regime = check_pose(P, S, obs, distmax, c["pair"], witness, sink=sink)
+        ccd_pair = tuple(c["pair"].split("-")) in OTHER_PAIRS or c["pair"] == "box-box"
+        if sink and ccd_pair and any(not sg.startswith("ccd-coincident") for sg, _ in sink):
+            # a mismatch that disappears with a 10x larger iteration limit is the documented effect of ccd_iterations (C15's subject)
+            old = int(S.m.opt["ccd_iterations"])
+            S.m.opt["ccd_iterations"] = 10 * old
+            sink2 = []
+            check_pose(core.Part(), S, observe(S, distmax), distmax, c["pair"], witness, sink=sink2)
+            S.m.opt["ccd_iterations"] = old
+            if not sink2:
+                P.count("skipped_iteration_limited")
+                sink = []
+            else:
+                sink = sink2
+        for sg, det in sink:
+            P.violation(sg, det)
         P.count("poses")
         P.count("pair:" + c["pair"])
         P.count("regime:" + regime)
@@ -646,6 +723,8 @@ def run(ctx):
     cs = cases(ctx)
     run_batches(ctx, "vf.props.c13", cs)
     ctx.min_nontrivial = ctx.pick(300, 1500)
+    if ctx.counters.get("skipped_iteration_limited", 0) > 0.02 * max(1, ctx.counters.get("poses", 0)) and not ctx.violations:
+        ctx.inconclusive("too many poses skipped as iteration limited (%d)" % ctx.counters.get("skipped_iteration_limited", 0))
     if ctx.counters.get("model_rejected", 0) > 0.02 * len(cs):
         ctx.inconclusive("too many generated models rejected (%d)" % ctx.counters.get("model_rejected", 0))
 
